@@ -236,6 +236,8 @@ class CompilerProcess:
         if planned:
             rec["planned"] = len(planned)
         err = win.stderr.getvalue()
+        if getattr(win, "fd2_len", 0):
+            err = err + getattr(win, "fd2_text", "")
         rec["stderr_len"] = len(err)
         rec["stderr_sha"] = sha(_ADDR.sub("0x?", err)) if err else ""
         out = win.stdout.getvalue()
